@@ -325,6 +325,23 @@ def perturb_globals(k):
     pass
 
 
+def flat_first_diff(a, b):
+  """1-based number of the first suggestion at which two step streams differ."""
+  if not isinstance(a, list) or not isinstance(b, list):
+    return None
+  n = 0
+  for x, y in zip(a, b):
+    if not isinstance(x, list) or not isinstance(y, list):
+      return n + 1
+    for j in range(min(len(x), len(y))):
+      if x[j] != y[j]:
+        return n + j + 1
+    if len(x) != len(y):
+      return n + min(len(x), len(y)) + 1
+    n += len(x)
+  return n + 1 if len(a) != len(b) else None
+
+
 def first_diff(a, b):
   """(step, index) of the first difference between two streams."""
   if not isinstance(a, list) or not isinstance(b, list):
